@@ -4,8 +4,12 @@
    Thread 0 is the driver/controller; threads 1..n are waiters; optionally one thread of
    plain lock traffic and one of cv traffic on the same mutex.
 
-   Variables var[k] only ever go from 0 to 1, and only the driver sets them, one per write
-   section that ends with nsync_mu_unlock().  Between those sections the driver runs read
+   Only the driver changes the variables var[k], in write sections that end with
+   nsync_mu_unlock() (or by waiting).  In most rounds they only go from 0 to 1, one per
+   section; in "toggle" rounds the driver also runs barging sections that make an already
+   true variable false again and another one true, straight after the section that made the
+   first one true (so a woken waiter finds its condition false again and has to wait again
+   while it carries the duty of waking others); every variable is true at the end.  Between those sections the driver runs read
    sections, try-lock sections and write sections that change nothing and end with
    nsync_mu_unlock_without_wakeup().  Waiters wait (reader or writer mode; with the same
    function and argument as a neighbour, the same function and another argument, an
@@ -25,6 +29,7 @@
 
 #define NV 3
 #define MAXW 5
+#define MAXS 8
 
 struct alias { int *p; };
 struct wspec { int reader, var, fkind, timed, dl_ns, note, second, var2, fkind2; };
@@ -40,16 +45,16 @@ static struct {
 	struct wspec w[MAXW + 1];
 	struct alias al[MAXW + 1][NV];
 	int waiting_on[RT_MAXT];        /* var index a waiter registered for, or -1 */
-	int order[NV];
-	int drv_gaps[NV], drv_read[NV], drv_nowake[NV], drv_try[NV], drv_check[NV];
-	int drv_endwait[NV];            /* the driver ends this section by WAITING (nsync_mu_wait on the release flag) instead of unlocking */
+	int nsec, sec_set[MAXS], sec_clr[MAXS];   /* driver sections: variable made true / made false (-1 = none) */
+	int drv_gaps[MAXS], drv_read[MAXS], drv_nowake[MAXS], drv_try[MAXS], drv_check[MAXS];
+	int drv_endwait[MAXS];            /* the driver ends this section by WAITING (nsync_mu_wait on the release flag) instead of unlocking */
 	int releaser;                   /* tid of the releaser/controller thread of rounds with such sections, or 0 */
 	int rel, driver_waiting, driver_done;
 	int drv_notify;                 /* driver notifies the cancel note before this section (NV = only at the end) */
 	int nthreads;
 } S;
 
-enum { CV_WAITS = 0, CV_SLEPT, CV_TIMEDOUT, CV_CANCELLED, CV_EVALS, CV_QCHECKS, CV_NOWAKE, CV_READER_WAITS, CV_SAMEFN_DIFFARG, CV_EQ_ARGS, CV_DRV_SLEPT, CV_ENDWAIT };
+enum { CV_WAITS = 0, CV_SLEPT, CV_TIMEDOUT, CV_CANCELLED, CV_EVALS, CV_QCHECKS, CV_NOWAKE, CV_READER_WAITS, CV_SAMEFN_DIFFARG, CV_EQ_ARGS, CV_DRV_SLEPT, CV_ENDWAIT, CV_TOGGLE, CV_IDLE };
 
 static void cond_ctx (void) {
 	int w = sc_get (&S.W);
@@ -177,9 +182,24 @@ static void quiescence_check (const char *when) {
 	}
 }
 
+/* Mode B idle oracle: nothing is runnable and only timers are pending.  A waiter asleep on a true condition while the
+   mutex is free was not woken by the release that followed the change, even if its own deadline would rescue it.  */
+static void idle_check (void) {
+	uint32_t word = sc_word (&S.mu.word);
+	int t;
+	rt_cover (CV_IDLE);
+	if ((word & (SC_MU_ANY_LOCK | 2u)) != 0) return;
+	for (t = 1; t <= S.nw; t++) {
+		int k = sc_get (&S.waiting_on[t]);
+		if (k >= 0 && S.var[k] && rt_thread_blocked (t))
+			rt_violation ("cond-true-asleep", rt_thread_op (t), "idle instant (only deadlines pending): waiter %d (%s, %s mode) is asleep although its condition var[%d] is true and the mutex is free (word %#x)",
+				      t, rt_thread_op (t), S.w[t].reader ? "read" : "write", k, word);
+	}
+}
+
 static void driver (void) {
 	int i;
-	for (i = 0; i < NV; i++) {
+	for (i = 0; i < S.nsec; i++) {
 		int g;
 		for (g = 0; g < S.drv_gaps[i]; g++) rt_point ("driver-gap");
 		if (i == S.drv_notify) RT_OP ("nsync_note_notify", nsync_note_notify (S.note));
@@ -191,8 +211,9 @@ static void driver (void) {
 		RT_OP ("nsync_mu_lock", nsync_mu_lock (&S.mu));
 		if (rt_op_sleeps ()) rt_cover (CV_DRV_SLEPT);
 		enter (1, "nsync_mu_lock");
-		S.var[S.order[i]] = 1;
-		rt_ev (0x900u + (uint32_t) S.order[i]);
+		if (S.sec_clr[i] >= 0) { S.var[S.sec_clr[i]] = 0; rt_cover (CV_TOGGLE); }
+		if (S.sec_set[i] >= 0) S.var[S.sec_set[i]] = 1;
+		rt_ev (0x900u + (uint32_t) (S.sec_set[i] + 1) + ((uint32_t) (S.sec_clr[i] + 1) << 4));
 		if (S.releaser && S.drv_endwait[i]) {
 			/* end the section by waiting: the release inside nsync_mu_wait must wake the waiters of var[] just as an unlock would */
 			S.rel = 0;
@@ -283,14 +304,33 @@ static int setup (uint64_t seed) {
 	if (rt_rand_n (3) == 0 && S.nthreads < rt_scen.max_threads) S.releaser = S.nthreads++;
 	if (rt_rand_n (3) == 0 && S.nthreads < rt_scen.max_threads) S.traffic = S.nthreads++;
 	if (rt_rand_n (3) == 0 && S.nthreads < rt_scen.max_threads) S.cvtraffic = S.nthreads++;
-	S.drv_notify = (int) rt_rand_n (NV + 2);
-	for (i = 0; i < NV; i++) S.order[i] = i;
-	for (i = NV - 1; i > 0; i--) { int j = (int) rt_rand_n ((unsigned) i + 1), x = S.order[i]; S.order[i] = S.order[j]; S.order[j] = x; }
-	for (i = 0; i < NV; i++) {
-		S.drv_gaps[i] = (int) rt_rand_n (4); S.drv_read[i] = (int) rt_rand_n (2); S.drv_nowake[i] = rt_rand_n (4) == 0; S.drv_try[i] = rt_rand_n (4) == 0;
+	{
+		int order[NV], cur[NV], toggle = (rt_rand_n (3) == 0);
+		for (i = 0; i < NV; i++) { order[i] = i; cur[i] = 0; }
+		for (i = NV - 1; i > 0; i--) { int j = (int) rt_rand_n ((unsigned) i + 1), x = order[i]; order[i] = order[j]; order[j] = x; }
+		S.nsec = 0;
+		for (i = 0; i < NV; i++) {
+			S.sec_set[S.nsec] = order[i]; S.sec_clr[S.nsec] = -1; S.drv_gaps[S.nsec] = -1; S.nsec++;
+			cur[order[i]] = 1;
+			if (toggle && S.nsec < MAXS - NV && rt_rand_n (2)) {
+				/* barging section: the variable just made true (or another true one) becomes false again, maybe another becomes true */
+				int a = rt_rand_n (3) ? order[i] : order[rt_rand_n ((unsigned) i + 1)], b = (int) rt_rand_n (NV + 1) - 1;
+				if (cur[a]) {
+					if (b == a) b = -1;
+					S.sec_set[S.nsec] = b; S.sec_clr[S.nsec] = a; S.drv_gaps[S.nsec] = rt_rand_n (3) ? 0 : -1; S.nsec++;
+					cur[a] = 0; if (b >= 0) cur[b] = 1;
+				}
+			}
+		}
+		for (i = 0; i < NV; i++) if (!cur[i]) { S.sec_set[S.nsec] = i; S.sec_clr[S.nsec] = -1; S.drv_gaps[S.nsec] = -1; S.nsec++; }
+	}
+	S.drv_notify = (int) rt_rand_n ((unsigned) S.nsec + 2);
+	for (i = 0; i < S.nsec; i++) {
+		int barge = (S.drv_gaps[i] == 0);     /* straight after the previous section: no gap, no other section in between */
+		S.drv_gaps[i] = barge ? 0 : (int) rt_rand_n (4); S.drv_read[i] = barge ? 0 : (int) rt_rand_n (2); S.drv_nowake[i] = barge ? 0 : rt_rand_n (4) == 0; S.drv_try[i] = barge ? 0 : rt_rand_n (4) == 0;
 		S.drv_check[i] = rt_mode_b () ? (int) rt_rand_n (2) : (rt_rand_n (10) == 0);
 		S.drv_endwait[i] = S.releaser ? (int) rt_rand_n (2) : 0;
-		rt_ev ((uint32_t) (S.order[i] | S.drv_gaps[i] << 2 | S.drv_read[i] << 4 | S.drv_nowake[i] << 5 | S.drv_try[i] << 6 | S.drv_check[i] << 7));
+		rt_ev ((uint32_t) ((S.sec_set[i] + 1) | S.drv_gaps[i] << 2 | S.drv_read[i] << 4 | S.drv_nowake[i] << 5 | S.drv_try[i] << 6 | S.drv_check[i] << 7 | (S.sec_clr[i] + 1) << 8));
 	}
 	rt_watch_word (0, &S.mu.word, &word_cb);
 	return (S.nthreads);
@@ -310,7 +350,7 @@ static void describe (FILE *f) {
 		fprintf (f, "%s\"%s var%d fn%d%s%s%s\"", t > 1 ? "," : "", w->reader ? "R" : "W", w->var, w->fkind, w->timed ? " timed" : "", w->note ? " note" : "", w->second ? " +second" : "");
 	}
 	fprintf (f, "],\"driver_order\":[");
-	for (i = 0; i < NV; i++) fprintf (f, "%s\"var%d%s%s%s%s\"", i ? "," : "", S.order[i], S.drv_read[i] ? " rsec" : "", S.drv_nowake[i] ? " nowake-sec" : "", S.drv_try[i] ? " try" : "", S.drv_check[i] ? " qcheck" : "");
+	for (i = 0; i < S.nsec; i++) fprintf (f, "%s\"set%d clr%d%s%s%s%s\"", i ? "," : "", S.sec_set[i], S.sec_clr[i], S.drv_read[i] ? " rsec" : "", S.drv_nowake[i] ? " nowake-sec" : "", S.drv_try[i] ? " try" : "", S.drv_check[i] ? " qcheck" : "");
 	fprintf (f, "],\"traffic\":%d,\"cvtraffic\":%d}", S.traffic != 0, S.cvtraffic != 0);
 }
 static void dump_state (FILE *f) {
@@ -323,6 +363,6 @@ static void pinit (void) {
 	rt_cover_name (CV_WAITS, "conditional_waits"); rt_cover_name (CV_SLEPT, "waits_that_slept"); rt_cover_name (CV_TIMEDOUT, "waits_timedout");
 	rt_cover_name (CV_CANCELLED, "waits_cancelled"); rt_cover_name (CV_EVALS, "condition_evaluations"); rt_cover_name (CV_QCHECKS, "quiescence_checks");
 	rt_cover_name (CV_NOWAKE, "unlock_without_wakeup"); rt_cover_name (CV_READER_WAITS, "reader_mode_waits"); rt_cover_name (CV_SAMEFN_DIFFARG, "rounds_with_same_fn_diff_arg_neighbours");
-	rt_cover_name (CV_EQ_ARGS, "waits_with_condition_arg_eq"); rt_cover_name (CV_DRV_SLEPT, "driver_acquisitions_that_slept"); rt_cover_name (CV_ENDWAIT, "driver_sections_ended_by_waiting");
+	rt_cover_name (CV_EQ_ARGS, "waits_with_condition_arg_eq"); rt_cover_name (CV_DRV_SLEPT, "driver_acquisitions_that_slept"); rt_cover_name (CV_ENDWAIT, "driver_sections_ended_by_waiting"); rt_cover_name (CV_IDLE, "idle_instants_checked"); rt_cover_name (CV_TOGGLE, "driver_sections_that_made_a_variable_false_again");
 }
-rt_scenario rt_scen = { "cond_rounds", "C06", 8, &pinit, &setup, &body, &check, &teardown, &describe, NULL, &dump_state, NULL };
+rt_scenario rt_scen = { "cond_rounds", "C06", 8, &pinit, &setup, &body, &check, &teardown, &describe, NULL, &dump_state, NULL, &idle_check };
